@@ -280,6 +280,26 @@ func (g *Gen) genC14(n int) error {
 		o := g.fresh("o")
 		g.emit("open %s %s", o, f)
 		g.alias(o, s)
+		if i%5 == 3 && len(b.Docs) <= 50 {
+			// first opens of an uncached field by several goroutines at once, all with the same
+			// exclusion bitmap: winner and losers of the race answer alike
+			nd := len(b.Docs)
+			for r := 0; r < g.tierN(25, 80); r++ {
+				o2 := g.fresh("o")
+				g.emit("open %s %s", o2, f)
+				g.alias(o2, s)
+				hp := g.fresh("h")
+				ex := g.randDrops(nd)
+				fn := g.pick([]string{"vecA", "vecB"})
+				g.emit("par %d rounds=1 ordered=1", 8+g.r.Intn(9))
+				g.emit("vopen %s %s %s filt=g ex=%s", hp, o2, fn, ex)
+				g.emit("vsearch %s q=%s k=%d", hp, g.randQuery(2), nd*3)
+				g.emit("vclose %s", hp)
+				g.emit("endpar")
+				g.emit("close %s", o2)
+			}
+			g.emit("vcounters")
+		}
 		if len(b.Docs) > 50 {
 			for _, seg := range []string{s, o} {
 				for _, fn := range []string{"vecA", "vecB"} {
@@ -390,6 +410,11 @@ func (g *Gen) genC15(n int) error {
 		}
 		if i%10 == 4 {
 			g.engFaultMergeCase()
+			g.st("case")
+			continue
+		}
+		if i%10 == 8 {
+			g.sameVectorCase()
 			g.st("case")
 			continue
 		}
@@ -524,6 +549,29 @@ func (g *Gen) genC16(n int) error {
 			g.emit("vsearch %s q=%s k=%d elig=%s", h2, g.randQuery(2), 2, g.liveSubset(nd, ex2, 1))
 			open = append(open, h2)
 		}
+		// one eligible set kept by the caller and handed to handles with different exclusions
+		if nd >= 2 {
+			if shared := g.liveSubset(nd, "nil", 1); shared != "-" {
+				for _, ex := range []string{intList([]int{0}), "nil", intList([]int{nd - 1})} {
+					hs := g.fresh("h")
+					g.emit("vopen %s %s %s filt=1 ex=%s", hs, seg, "vecA", ex)
+					g.emit("vsearch %s q=%s k=%d elig=%s", hs, g.randQuery(2), nd*3, shared)
+					open = append(open, hs)
+				}
+			}
+		}
+		if i%3 == 1 {
+			// the segment goes away while callers still hold indexes: nothing native may remain,
+			// and the late closes are harmless
+			g.emit("close %s", seg)
+			g.emit("vcounters")
+			for _, h := range open {
+				g.emit("vclose %s", h)
+			}
+			g.emit("vcounters")
+			g.st("case")
+			continue
+		}
 		for _, h := range open {
 			g.emit("vclose %s", h)
 		}
@@ -620,6 +668,10 @@ func (g *Gen) bigFrozenCase(mode int) {
 		// empty term) in few: neighbours in the file on opposite sides of 1024 hits
 		toks = append(toks, TokSpec{Term: []byte("zzz"), Freq: 1})
 		doc.Fields = append(doc.Fields, FieldSpec{Kind: "fld", Name: "body", Typ: 't', Len: 2 + d%4, DV: true, Toks: toks})
+		if d == 600 || d == 700 {
+			// the next field's FIRST term equals this field's LAST term, with hits on the other side of 1024
+			doc.Fields = append(doc.Fields, FieldSpec{Kind: "fld", Name: "bodz", Typ: 't', Len: 5, Toks: []TokSpec{{Term: []byte("zzz"), Freq: 2 + d/700}}})
+		}
 		var tags []TokSpec
 		if d%30 == 0 {
 			tags = append(tags, TokSpec{Term: []byte{}, Freq: 2, Locs: []LocSpec{{Pos: 1, Start: d, End: d}, {Pos: 2, Start: d + 1, End: d + 1}}})
@@ -674,6 +726,7 @@ func (g *Gen) bigFrozenCase(mode int) {
 	g.emit("q post %s body %s ex=%s fl=111 ops=%s", o, hx([]byte("common")), intList(pre), g.nexts(nd-len(pre)+1))
 	g.emit("q dict %s body aut=all lo=* hi=* probe=-", o)
 	g.emit("q dict %s tag aut=all lo=* hi=* probe=.", o)
+	g.emit("q post %s bodz %s ex=nil fl=111 ops=N,N,N", o, hx([]byte("zzz")))
 	g.emit("q post %s tag . ex=nil fl=111 ops=%s", o, g.nexts(nd/30+2))
 	g.emit("q post %s tag . ex=%s fl=111 ops=%s", o, intList(few), g.nexts(nd/30+2))
 	// two private states, each staying in its own chunk: the first documents of chunk 0 for one,
@@ -705,6 +758,7 @@ func (g *Gen) bigFrozenCase(mode int) {
 			g.emit("q post %s body %s ex=nil fl=111 ops=N,N,A%d,%s,A%d,N,N,N", m, hx([]byte(term)), total/2, tail, total-3)
 			g.emit("q post %s body %s ex=nil fl=000 ops=%s", m, hx([]byte(term)), g.nexts(total+1))
 		}
+		g.emit("q post %s bodz %s ex=nil fl=111 ops=N,N,N", m, hx([]byte("zzz")))
 		g.emit("q post %s tag . ex=nil fl=111 ops=%s", m, g.nexts(nd/30+2))
 		g.emit("q post %s tag %s ex=nil fl=111 ops=N,N,A%d,N,N,N", m, hx([]byte("t1")), total/2)
 		g.emit("q post %s body %s ex=nil fl=100 ops=N,A%d,N,N,A%d,N,N", m, hx([]byte("zzz")), total/2, total-2)
@@ -774,4 +828,53 @@ func (g *Gen) engFaultMergeCase() {
 	}
 	g.emit("vcounters")
 	g.st("vec.engfaultmerge")
+}
+
+// sameVectorCase: the inputs of a merge hold bit-identical vectors at the same positions (the
+// same documents indexed twice, say); every owner keeps its vector in the merged index.
+func (g *Gen) sameVectorCase() {
+	g.setMode()
+	var segs []string
+	nd := 2 + g.r.Intn(3)
+	vecs := make([][]int, nd)
+	for d := range vecs {
+		vecs[d] = []int{g.r.Intn(9) - 4, g.r.Intn(9) - 4}
+	}
+	ns := 2 + g.r.Intn(2)
+	for k := 0; k < ns; k++ {
+		b := &BatchSpec{Name: g.fresh("b")}
+		for d := 0; d < nd; d++ {
+			id := []byte(fmt.Sprintf("%s-%d", b.Name, d))
+			doc := DocSpec{ID: id, Plain: true}
+			doc.Fields = append(doc.Fields, FieldSpec{Kind: "fld", Name: "_id", Typ: 't', Stored: true, Len: 1, Val: id, Toks: []TokSpec{{Term: id, Freq: 1}}})
+			doc.Fields = append(doc.Fields, FieldSpec{Kind: "vec", Name: "vecA", Dim: 2, Metric: "l2_norm", Opt: g.vecOpt["vecA"], Vec: vecs[d]})
+			b.Docs = append(b.Docs, doc)
+		}
+		g.emitBatch(b)
+		s := g.fresh("s")
+		g.emit("build %s %s", s, b.Name)
+		g.newBuilt(s, b)
+		segs = append(segs, s)
+	}
+	mf := g.fresh("f")
+	var drops []string
+	for range segs {
+		drops = append(drops, "nil")
+	}
+	g.emit("merge %s segs=%s drops=%s", mf, strList(segs), strings.Join(drops, "|"))
+	m := g.fresh("m")
+	g.emit("open %s %s", m, mf)
+	g.ndocs[m] = nd * len(segs)
+	g.emit("vstats %s", m)
+	h := g.fresh("h")
+	g.emit("vopen %s %s vecA filt=0 ex=nil", h, m)
+	g.emit("vsearch %s q=%s k=%d", h, intList(vecs[0]), nd*len(segs)*2)
+	g.emit("vsearch %s q=%s k=%d", h, g.randQuery(2), nd*len(segs)*2)
+	g.emit("vclose %s", h)
+	g.emit("close %s", m)
+	for _, s := range segs {
+		g.emit("close %s", s)
+	}
+	g.emit("vcounters")
+	g.st("vec.samevectors")
 }
